@@ -139,6 +139,7 @@ def c17_programs(ctx, spec):
     rng = random.Random("%d/C17" % ctx.seed)
     n = 28 if ctx.tier == "quick" else 160
     decls = [PG.gen_decl(rng, force_max=m) for m in (1, 2, 3, 127, 128, 254, 255, 255)]
+    decls.append(PG.shadow_decl())
     decls += [PG.gen_decl(rng) for _ in range(n - len(decls))]
     # an enum whose display characters repeat the README style, and one with byte discriminants
     src = PG.enum_program(decls)
